@@ -20,7 +20,8 @@ def main():
         if a.returncode:
             rows.append((name, 'patch does not apply')); print(name, 'PATCH DOES NOT APPLY', a.stderr.strip()[:100], flush=True); continue
         try:
-            p = subprocess.run([os.path.join(V, 'check'), pid], capture_output=True, text=True, cwd=V)
+            tier_args = ['--tier', 'thorough'] if '--tier thorough' in meta.get('check_cmd', '') else []
+            p = subprocess.run([os.path.join(V, 'check'), pid] + tier_args, capture_output=True, text=True, cwd=V)
         finally:
             subprocess.run(['git', '-C', REPO, 'checkout', '--', '.'], check=True)
         vio = [l for l in p.stdout.split('\n') if l.startswith('VIOLATION')]
